@@ -65,6 +65,17 @@ def gen(rng, tier):
         k = max(range(nt), key=lambda i: len(trajs[i]))
         yield {'trajs': trajs, 'lag': rng.choice([1, 2, 3]), 'S': [present[0]], 'F': [present[-1]], 'perm': perm,
                'cut': [k, rng.randint(0, len(trajs[k]))], 'alpha': 'size-' + tag, 'light': True, 'nosingle': True}
+    for _ in range(6 if tier == 'quick' else 100):      # equally long (also one-frame) trajectories
+        labs, akind = G.alphabet(rng, k=rng.randint(2, 3))
+        L = rng.choice([1, 1, 2, 3, 6])
+        nt = rng.randint(2, 6)
+        trajs = [[rng.choice(labs) for _ in range(L)] for _ in range(nt)]
+        present = sorted({v for t in trajs for v in t})
+        if len(present) < 2:
+            continue
+        perm = list(range(nt))
+        rng.shuffle(perm)
+        yield {'trajs': trajs, 'lag': 1, 'S': [present[0]], 'F': [present[-1]], 'perm': perm, 'cut': [0, rng.randint(0, L)], 'alpha': akind + '+equal', 'light': True}
     for _ in range(4 if tier == 'quick' else 60):
         # the chain used for sampling: two trajectories whose junction pair x>z occurs nowhere inside them
         from props import c18
@@ -127,6 +138,9 @@ def impl(case):
            'cut': battery(A(_cutset(case), _cutidx(case)), case['lag'], case['S'], case['F'], which=['emm']),
            'single': [battery(A([t], [i]), case['lag'], case['S'], case['F'], which=['coring', 'wt', 'paths'])
                       for i, t in enumerate(trajs)] if len(trajs) <= 12 else None}
+    if len({len(t) for t in trajs}) == 1 and len(trajs) >= 2 and len(trajs[0]) >= 1 and not dts:
+        # the same set as ONE 2-d array (one row per trajectory): still that many independent pieces
+        out['as2d'] = battery(np.array(trajs, dtype=np.int64), case['lag'], case['S'], case['F'], which=['emm'])['emm']
     if case.get('junction'):
         # sampling treats the trajectories as independent pieces too: after the SAME frames were sampled as one
         # joined trajectory, the chain for the two pieces never takes the step seen only across their boundary
@@ -214,6 +228,8 @@ def judge(case, ibc, answers):
             if not _close(b[name], p[name]):
                 P('impl-vs-spec', '%s changes when the trajectories are reordered: %s vs %s' % (
                     name, C.short(b[name], 120), C.short(p[name], 120)))
+        if 'as2d' in r and r['as2d'] != b['emm']:
+            P('impl-vs-spec', 'the set passed as a 2-d array (one row per trajectory) gives %s, as a list of trajectories %s' % (C.short(r['as2d'], 100), C.short(b['emm'], 100)))
         if r.get('junction_step'):
             P('impl-vs-spec', 'the sampled chain of the two trajectories takes the step %s>%s that occurs only across their boundary '
               '(after the joined frames had been sampled)' % tuple(case['junction']))
